@@ -55,7 +55,7 @@ func (f FileSpec) driver(pkgName, caseDir string) string {
 	w(`	"storj.io/drpc/drpcmux"`)
 	w(`	"storj.io/drpc/drpcserver"`)
 	if usesOther {
-		w(`	"verifgen/cases/%s/other"`, caseDir)
+		w(`	other "verifgen/cases/%s/%s"`, caseDir, f.otherPkg())
 	}
 	if usesWk {
 		w(`	"google.golang.org/protobuf/types/known/wrapperspb"`)
